@@ -34,7 +34,8 @@ LEVEL_TEXT = ("Exploration: thousands of configurations with radii and heights l
 LEVEL_NOTE = ("Trusts scipy.integrate.quad (epsrel 1e-12, break points supplied). Tolerance: "
               "1e-7 of the smaller solid's volume + 1e-12 of the larger; inside the library's own "
               "eps = 1e-6 fast-path band (0 < r_near - r_far <= 1e-6) an allowance of "
-              "2*pi*r*min(h,r)*1.5e-6 is added. Heights > 0, sphere radii > 0. For two spheres a conditioning "
+              "2*pi*r*min(h,r)*1.5e-6 is added, and 2e-6*pi*r^3 when the far rim lies within 4e-6*r "
+              "inside the sphere surface (the library's 't > 1 + eps' band). Heights > 0, sphere radii > 0. For two spheres a conditioning "
               "allowance 4e-16*(r1+r2)^4/d is added (rounding in any closed form of the lens as "
               "d -> 0).")
 RULE = ("cases = (kind, radii, distance / height, orientation, position, operand / end order) drawn "
@@ -157,6 +158,13 @@ def execute(ctx, case):
             vs = 4 / 3 * np.pi * r1 ** 3
             vf = np.pi * hh * (r1 * r1 + r1 * r2 + r2 * r2) / 3
             allow = 2 * np.pi * r1 * min(hh, r1) * 1.5e-6 if 0 < r1 - r2 <= 1.5e-6 else 0.0
+            # the library's second eps band: the far rim within eps (1e-6, relative to the slant
+            # parameter) *inside* the sphere is not yet treated as "frustum inside the sphere";
+            # the general formula then errs by O(eps * r^3) (measured 6e-7 relative)
+            rim = np.hypot(hh, r2)
+            if r2 < r1 and 0 <= (r1 - rim) <= 4e-6 * r1:
+                allow += 2e-6 * np.pi * r1 ** 3
+                ctx.count("sf_far_rim_in_eps_band")
             ctx.count("sf_far_end_order" if far else "sf_near_end_order")
             ctx.count("sf_taper_narrowing" if r2 < r1 else
                       ("sf_taper_widening" if r2 > r1 else "sf_cylinder"))
